@@ -69,14 +69,12 @@ def locOk (l : Loc) : Bool :=
 def knownRacy : List String :=
   [ "connectableObservableImpl.subject",       -- observable.go:551 written in the disconnect finalizer, :547/:566 read, no common lock
     "connectableObservableImpl.subscription",  -- observable.go:547 written under mu, :549/:558 read after Unlock
-    "ShareWithConfig.sourceSubscription",      -- operator_connectable.go:160 read after Unlock, :89/:103 written under mu
-    "BufferWithCount.buffer",                  -- operator_transformations.go:591 teardown write, :571-:579 source callback
-    "GroupByIWithContext.groups",              -- operator_transformations.go:385 teardown overwrites the sync.Map the callbacks use
     "detachOn.ch",                             -- operator_utility.go:585 teardown closes the channel the source callback sends on (:597)
     "ToChannel.ch" ]                           -- operator_sink.go:130 same shape (:150)
--- Repaired in the repository since the first run of this check (commits 11bf135, fd0e106), and therefore
--- no longer excused: "MergeMapIWithContext.i" (index shared by all subscriptions) and
--- "OnErrorResumeNextWith.finally" (captured slice rewritten per application), both also C12.
+-- Repaired in the repository since the first run of this check and therefore no longer excused
+-- (known_findings.jsonl, `fixed:` lines): MergeMapIWithContext.i (11bf135), OnErrorResumeNextWith.finally
+-- (fd0e106), ShareWithConfig.sourceSubscription (a510ca9), BufferWithCount.buffer (40f71f8),
+-- GroupByIWithContext.groups (32b7a93: emptied in place through sync.Map methods, all rows atomic).
 
 def tableOk (known : List String) (t : List Loc) : Bool :=
   t.all (fun l => known.contains l.name || locOk l)
